@@ -17,7 +17,7 @@ AU = ['a', '1', '.', '“', ' ', '\xa0', '\xa3', '*', '_']
 TEMPLATES = ['*{c}a*', '*a{c}*', 'a*{c}*a', '_{c}a_', '_a{c}_', 'a_{c}_a', '{c}*a*']
 # ASCII characters with an inline meaning of their own are outside the model's input class
 OWN_MEANING = set('\\`[]<>&!~#*_')
-LINE_ENDS = set('\n\r\x0b\x0c\x1c\x1d\x1e\x85  ')
+LINE_ENDS = set('\n\r\x0b\x0c\x1c\x1d\x1e\x85\u2028\u2029')
 
 SPACES = {
     'quick': dict(a5=8, bin=14, uni=5, sweep='classes'),
